@@ -162,7 +162,7 @@ pub fn mutations(valid: &[u8], other: &[u8], rng: &mut StdRng, random_extra: usi
         let Some(next) = next.filter(|n| *n <= valid.len()) else { break };
         if wt == 2 {
             let (l, ln) = read_uvarint(&valid[body..]).unwrap();
-            for ext in [0u64, 1, l.wrapping_sub(1), l + 1, 127, 128, 0x3fff, 0x4000, 0xffff_ffff, 1 << 32, (1 << 63) - 1, 1 << 63, u64::MAX] {
+            for ext in [0u64, 1, l.wrapping_sub(1), l.wrapping_sub(2), l + 1, l + 2, l + ln as u64, l + ln as u64 + 1, 127, 128, 0x3fff, 0x4000, 0xffff_ffff, 1 << 32, (1 << 63) - 1, 1 << 63, u64::MAX] {
                 let mut m = valid[..body].to_vec();
                 m.extend(uvarint(ext));
                 m.extend_from_slice(&valid[body + ln..]);
@@ -278,6 +278,50 @@ pub fn mutations_deep(valid: &[u8], depth: usize) -> Vec<(String, Vec<u8>)> {
             let mut f = fields.clone();
             f[i].1 = PbVal::Bytes(v);
             out.push((op, pb_emit(&f)));
+        }
+        // the field announced one / two bytes (or its own prefix size) longer or shorter than it is
+        let l = b.len() as u64;
+        let ln = uvarint(l).len() as u64;
+        for announced in [l + 1, l + 2, l + ln, l + ln + 1, l.wrapping_sub(1), l.wrapping_sub(2)] {
+            let mut m = pb_emit(&fields[..i]);
+            m.extend(pb_key(fields[i].0, 2));
+            m.extend(uvarint(announced));
+            m.extend_from_slice(b);
+            m.extend(pb_emit(&fields[i + 1..]));
+            out.push(("len-extreme".into(), m));
+        }
+    }
+    out
+}
+
+/// A varint-length-prefixed frame sequence read by hand: `(offset of prefix, prefix size, announced)`.
+pub fn frames_of(b: &[u8]) -> Vec<(usize, usize, u64)> {
+    let mut out = vec![];
+    let mut off = 0;
+    while off < b.len() {
+        let Some((l, n)) = read_uvarint(&b[off..]) else { break };
+        out.push((off, n, l));
+        off = match (off + n).checked_add(l as usize) {
+            Some(x) if x <= b.len() => x,
+            _ => break,
+        };
+    }
+    out
+}
+
+/// Systematic truncation of a sequence of length-prefixed frames: every proper prefix of the
+/// bytes, and for every frame the announced length replaced by what is available after its
+/// prefix plus 1 / 2 / the prefix size / the prefix size + 1, and minus 1 / 2.
+pub fn truncations_framed(valid: &[u8]) -> Vec<(String, Vec<u8>)> {
+    let mut out: Vec<(String, Vec<u8>)> = (0..valid.len()).map(|k| ("truncate".to_string(), valid[..k].to_vec())).collect();
+    for (off, n, _) in frames_of(valid) {
+        let avail = (valid.len() - off - n) as u64;
+        for announced in [avail + 1, avail + 2, avail + n as u64, avail + n as u64 + 1, avail.wrapping_sub(1), avail.wrapping_sub(2),
+                          valid.len() as u64, valid.len() as u64 + 1, (valid.len() - off) as u64, (valid.len() - off) as u64 + 1] {
+            let mut m = valid[..off].to_vec();
+            m.extend(uvarint(announced));
+            m.extend_from_slice(&valid[off + n..]);
+            out.push(("len-extreme".into(), m));
         }
     }
     out
